@@ -15,6 +15,8 @@
     times, in the order they were installed"
         → `fire_order` (for every pair of firings that were pending together the
           earlier one has the smaller `(due, installation number)`),
+          `runOnce_pass_sorted` (the firings of one run_once pass are strictly
+          sorted by `(due, installation number)`),
           `fire_is_min` (one step: the popped entry is the heap minimum),
           `refine_pop` (… = the head of the abstract sorted list)
   * "a task never fires before its time"              → `never_early`
@@ -1731,6 +1733,160 @@ theorem fires_exactly_once {w : World} (hw : Fresh w) (ops : List Op) (d : Nat) 
     exact Or.inr (Or.inr ⟨e, he, rfl, hnd e he⟩)
   · exact Or.inl h
   · exact Or.inr (Or.inl h)
+/-! ## one pass of run_once fires in sorted order
+
+  The plain reading of the first clause: the firings of a single `run_once()`
+  pass — whatever the history before it — are strictly sorted by
+  `(due time, installation number)`, all at the time of the pass. -/
+
+/-- everything installed since the counter was `c0` lies in the future -/
+def Late (c0 : Nat) (w : World) : Prop := ∀ e ∈ w.tm.heap, c0 ≤ e.seq → w.now < e.time
+
+/-- the firings appended since `w` all belong to installations older than `c0`,
+    were made with the counter at `c0` or later, at time `t` -/
+def NewFires (c0 t : Nat) (w w' : World) : Prop :=
+  ∃ new, w'.fired = w.fired ++ new ∧ ∀ f ∈ new, f.seq < c0 ∧ c0 ≤ f.ctr ∧ f.now = t
+
+theorem NewFires.refl (c0 t : Nat) (w : World) : NewFires c0 t w w := ⟨[], by simp, by simp⟩
+
+theorem NewFires.trans {c0 t : Nat} {a b c : World} (h1 : NewFires c0 t a b) (h2 : NewFires c0 t b c) :
+    NewFires c0 t a c := by
+  obtain ⟨n1, e1, p1⟩ := h1
+  obtain ⟨n2, e2, p2⟩ := h2
+  refine ⟨n1 ++ n2, by rw [e2, e1, List.append_assoc], ?_⟩
+  intro f hf
+  rcases List.mem_append.mp hf with h | h
+  · exact p1 f h
+  · exact p2 f h
+
+theorem keeps_newFires {c0 t : Nat} {w w' : World} (hk : Keeps w w') : NewFires c0 t w w' :=
+  ⟨[], by rw [hk.fired]; simp, by simp⟩
+
+theorem process_fired (w : World) (e : Entry) :
+    (w.process e).1.fired = w.fired ++ [⟨e.tid, e.time, e.seq, w.now, w.tm.counter⟩] := by
+  unfold World.process
+  simp only
+  generalize hw1 : ({ w with fired := w.fired ++ [Fire.mk e.tid e.time e.seq w.now w.tm.counter],
+                             out := w.out ++ [Ev.fire e.tid w.now e.time e.seq] } : World) = w1
+  have hk := deferAll_keeps w1 (w.body e.tid).defers
+  have : (w1.deferAll (w.body e.tid).defers).fired = w.fired ++ [⟨e.tid, e.time, e.seq, w.now, w.tm.counter⟩] := by
+    rw [hk.fired, ← hw1]
+  split <;> exact this
+
+theorem getNext_counter {tm tm' : TM} {now : Nat} {e? : Option Entry} {d : Option Nat}
+    (hg : tm.getNext now = (e?, d, tm')) : tm'.counter = tm.counter := by
+  unfold TM.getNext at hg
+  split at hg
+  · simp only [Prod.mk.injEq] at hg; obtain ⟨_, _, rfl⟩ := hg; rfl
+  · split at hg
+    · simp only [Prod.mk.injEq] at hg; obtain ⟨_, _, rfl⟩ := hg; rfl
+    · simp only [Prod.mk.injEq] at hg; obtain ⟨_, _, rfl⟩ := hg; rfl
+
+theorem fireNext_late {c0 : Nat} {w : World} (h : WInv w) (hl : Late c0 w) (hc : c0 ≤ w.tm.counter) :
+    Late c0 w.fireNext.1 ∧ NewFires c0 w.now w w.fireNext.1 ∧ c0 ≤ w.fireNext.1.tm.counter := by
+  have hw' := fireNext_winv h
+  obtain ⟨hnow, _, _, _, _⟩ := fireNext_spec h
+  unfold World.fireNext at hw' hnow ⊢
+  rcases hg : w.tm.getNext w.now with ⟨e?, d, tm'⟩
+  rw [hg] at hw' hnow
+  cases e? with
+  | none =>
+    simp only at hw' hnow ⊢
+    obtain ⟨rfl, _, _, _⟩ := getNext_none hg
+    exact ⟨hl, NewFires.refl _ _ _, hc⟩
+  | some e =>
+    simp only at hw' hnow ⊢
+    obtain ⟨_, hdue, hmem, hperm, _⟩ := getNext_some h.sched hg
+    have hctr := getNext_counter hg
+    have hseq : e.seq < c0 := by
+      rcases Nat.lt_or_ge e.seq c0 with h1 | h1
+      · exact h1
+      · have := hl e hmem h1; omega
+    have hfl : tm'.flag e.tid = false := by
+      unfold TM.getNext at hg
+      split at hg
+      · simp at hg
+      · split at hg
+        · simp only [Prod.mk.injEq, Option.some.injEq] at hg
+          obtain ⟨rfl, _, rfl⟩ := hg
+          simp [upd]
+        · simp at hg
+    obtain ⟨_, _, hheap⟩ := process_heap (w := { w with tm := tm' }) (e := e) hfl
+    have hfired := process_fired { w with tm := tm' } e
+    have key : ∀ v : World, v.tm = (World.process { w with tm := tm' } e).1.tm →
+        v.fired = (World.process { w with tm := tm' } e).1.fired → v.now = w.now → WInv v →
+        Late c0 v ∧ NewFires c0 w.now w v ∧ c0 ≤ v.tm.counter := by
+      intro v hvtm hvf hvnow hwv
+      have hcv : c0 ≤ v.tm.counter := by
+        -- the counter never decreases: the new firing record carries it
+        have hmemf : (⟨e.tid, e.time, e.seq, w.now, tm'.counter⟩ : Fire) ∈ v.fired := by
+          rw [hvf, hfired]; simp
+        have := (hwv.sched.fired_ctr _ hmemf).2
+        simp only at this; omega
+      refine ⟨?_, ⟨[⟨e.tid, e.time, e.seq, w.now, tm'.counter⟩], by rw [hvf, hfired], ?_⟩, hcv⟩
+      · intro x hx hcx
+        rw [hvtm] at hx; rw [hvnow]
+        have hrest : ∀ y ∈ tm'.heap, c0 ≤ y.seq → w.now < y.time := fun y hy hcy =>
+          hl y (hperm.mem_iff.mpr (List.mem_cons_of_mem _ hy)) hcy
+        rcases hheap with hh | ⟨_, t, c, ht, hh⟩
+        · rw [hh] at hx; exact hrest x hx hcx
+        · rw [hh] at hx
+          rcases List.mem_cons.mp hx with rfl | hx'
+          · exact ht
+          · exact hrest x hx' hcx
+      · intro f hf
+        simp at hf; subst hf
+        simp only
+        exact ⟨hseq, by omega, trivial⟩
+    split
+    · rename_i hr
+      simp only [hr, if_true] at hw' hnow
+      exact key _ rfl rfl hnow hw'
+    · rename_i hr
+      simp only [hr] at hw' hnow
+      exact key _ rfl rfl hnow hw'
+
+theorem runOnceLoop_late (fuel : Nat) {c0 : Nat} {w : World} (h : WInv w) (hl : Late c0 w)
+    (hc : c0 ≤ w.tm.counter) : NewFires c0 w.now w (w.runOnceLoop fuel).1 := by
+  induction fuel generalizing w with
+  | zero => exact NewFires.refl _ _ _
+  | succ n ih =>
+    unfold World.runOnceLoop
+    simp only
+    obtain ⟨hl1, hn1, hc1⟩ := fireNext_late h hl hc
+    obtain ⟨hnow, _⟩ := fireNext_spec h
+    have hk := drain_keeps w.fireNext.1
+    have hn2 : NewFires c0 w.now w w.fireNext.1.drain := hn1.trans (keeps_newFires hk)
+    split
+    · have hw := drain_winv (fireNext_winv h)
+      have hl2 : Late c0 w.fireNext.1.drain := by
+        intro x hx hcx; rw [hk.heap] at hx; rw [hk.now]; exact hl1 x hx hcx
+      have := ih hw hl2 (by rw [hk.counter]; exact hc1)
+      rw [hk.now, hnow] at this
+      exact hn2.trans this
+    · exact hn2
+
+/-- **fire_order, one pass** — the firings of a `run_once()` pass in any
+    reachable state are strictly sorted by `(due, installation number)`, and all
+    happen at the time of the pass -/
+theorem runOnce_pass_sorted {w : World} (h : WInv w) :
+    ∃ new, w.runOnce.1.fired = w.fired ++ new ∧
+      new.Pairwise (fun f g => keyLt f.due f.seq g.due g.seq) ∧ ∀ f ∈ new, f.now = w.now ∧ f.due ≤ w.now := by
+  have hl : Late w.tm.counter w := by
+    intro e he hce; have := h.sched.heap_seq_lt he; omega
+  obtain ⟨new, hnew, hp⟩ := runOnceLoop_late (w.tm.heap.length + 1) h hl (Nat.le_refl _)
+  refine ⟨new, hnew, ?_, ?_⟩
+  · have hord := (runOnceLoop_winv (w.tm.heap.length + 1) h).sched.order
+    rw [hnew] at hord
+    have := (List.pairwise_append.mp hord).2.1
+    refine List.Pairwise.imp_of_mem ?_ this
+    intro f g hf hg hfg
+    exact hfg (by have := hp f hf; have := hp g hg; omega)
+  · intro f hf
+    have hearly := (runOnceLoop_winv (w.tm.heap.length + 1) h).sched.early f (by rw [hnew]; exact List.mem_append_right _ hf)
+    have := (hp f hf).2.2
+    exact ⟨this, by omega⟩
+
 /-! ## refinement: the heap-as-a-list is an abstract sorted multiset of deadlines
 
   The abstract scheduler is a list of entries sorted by `(time, seq)`:
